@@ -73,8 +73,12 @@ func (r *scriptReader) Read(p []byte) (int, error) {
 
 func msgTR(m *rtcm.Message) string { return fmt.Sprintf("%d,%s", m.MessageType, hexs(m.RawData)) }
 
-// case: pipeline <script: step;step;...> <sinks: cap[s] | nil, comma separated ("s" = slow consumer)> <gomaxprocs> <tolerance ms>
-// obs:  ret=<0|1> sink0=<type,raw;...> sink1=... goroutines=<leaked count> | hang | panic
+// case: pipeline <script: step;step;...> <sinks: cap[s] | nil, comma separated ("s" = slow consumer)> <gomaxprocs> <tolerance ms> [rounds]
+// obs:  ret=<0|1> sink0=<type,raw;...> sink1=... goroutines=<leaked count> [close=<ok|twice>] | hang | panic
+// rounds (default 1): the same AppCore processes the script that many times, one source after the other, as
+// AppCore.HandleMessages does when the input comes back; the sinks keep collecting.  With rounds > 1 the harness
+// finally closes every non-nil channel of the list it handed to appcore.New, as rtcmfilter's HandleMessages does
+// with its own list: close=twice means one of them was already closed (the list no longer names each consumer once).
 func runPipeline(f []string, out *bufio.Writer) {
 	steps := strings.Split(f[1], ";")
 	if f[1] == "-" {
@@ -134,36 +138,62 @@ func runPipeline(f []string, out *bufio.Writer) {
 			}
 		}(s)
 	}
+	rounds := 1
+	if len(f) > 5 {
+		rounds = atoi(f[5])
+	}
 	core := appcore.New(cfg, chans)
 	type result struct {
 		ret int
 		pan interface{}
 	}
-	done := make(chan result, 1)
-	go func() {
-		defer func() {
-			if r := recover(); r != nil {
-				done <- result{0, r}
-			}
-		}()
-		ret := core.HandleMessagesUntilEOF(time.Unix(1683720000, 0).UTC(), bufio.NewReader(&scriptReader{steps: steps}))
-		done <- result{ret, nil}
-	}()
 	var res result
-	select {
-	case res = <-done:
-	case <-time.After(60 * time.Second):
-		fmt.Fprintln(out, "hang")
-		close(stop)
-		return
-	}
-	if res.pan != nil {
-		fmt.Fprintln(out, "panic")
-		close(stop)
-		return
+	for round := 0; round < rounds; round++ {
+		done := make(chan result, 1)
+		go func() {
+			defer func() {
+				if r := recover(); r != nil {
+					done <- result{0, r}
+				}
+			}()
+			ret := core.HandleMessagesUntilEOF(time.Unix(1683720000, 0).UTC(), bufio.NewReader(&scriptReader{steps: steps}))
+			done <- result{ret, nil}
+		}()
+		select {
+		case res = <-done:
+		case <-time.After(60 * time.Second):
+			fmt.Fprintln(out, "hang")
+			close(stop)
+			return
+		}
+		if res.pan != nil {
+			fmt.Fprintln(out, "panic")
+			close(stop)
+			return
+		}
+		if res.ret != 0 {
+			break
+		}
 	}
 	close(stop)
 	wg.Wait()
+	closing := ""
+	if rounds > 1 {
+		closing = "ok"
+		for _, c := range chans {
+			if c == nil {
+				continue
+			}
+			func() {
+				defer func() {
+					if recover() != nil {
+						closing = "twice"
+					}
+				}()
+				close(c)
+			}()
+		}
+	}
 	// all helper goroutines must finish
 	leaked := 0
 	for i := 0; i < 200; i++ {
@@ -186,6 +216,9 @@ func runPipeline(f []string, out *bufio.Writer) {
 		}
 	}
 	parts = append(parts, fmt.Sprintf("goroutines=%d", leaked))
+	if closing != "" {
+		parts = append(parts, "close="+closing)
+	}
 	fmt.Fprintln(out, strings.Join(parts, " "))
 }
 
